@@ -1,238 +1,75 @@
-import RpmVerif.Model.Header
+import RpmVerif.Model.Accessors
+import RpmVerif.Model.Cpio
 import RpmVerif.Model.FileMode
 import RpmVerif.Model.Fs
 /-!
 # What `Package::extract` reads from a package
 
-Model of `get_file_paths`, `get_file_entries`, `get_payload_compressor` (`src/rpm/package.rs`), of the
-cpio reader `payload::Reader::{new, read, finish}` (`src/rpm/payload.rs`) and of `FileIterator::next`,
-composed into `extractInput : Package → Fs.Input`.  Executable; validated by the C12 correspondence
-(every generated package goes through it), not the subject of a theorem.
+`extractInput : Package → Fs.Input` is the composition `Package::extract` itself makes (`src/rpm/package.rs`):
+
+* `self.metadata.header.get_entry_data_as_string_array(RPMTAG_DIRNAMES)`            — `Hdr.getStringArray`
+* `self.files()`: `get_file_entries()?`                                              — `Acc.getFileEntries`
+                  `get_payload_compressor()?`                                        — `Acc.getPayloadCompressorVariant`
+                  `decompress_stream(..)`                                            — identity for the variants of
+                                                                                       `Gen.decompressIdentity`, otherwise the
+                                                                                       archive is a parameter (no codecs here)
+* `FileIterator::next` until `None` / the first `Err`                                — `Cpio.iterate` (= `Cpio.iterateE` projected)
+* `file.metadata.{path, mode, linkto}`, `file.content` of every `Ok` item            — `itemOf`
+
+There is NO second copy of the read side here (there was one until session 5: `filePaths`, `fileEntries`,
+`payloadCompressor`, `readerNew`, `iterate` with literal constants, and a stale SHA-224 digest length): the
+accessors are the ones of `Model/Accessors.lean` (theorems of C04 / C05 / C06, differential run of C05), the cpio
+reader is the one of `Model/Cpio.lean` (theorems of C07 / C04Readside, differential run of C07), and every constant
+comes from the tables `tools/gen_tables.py` scrapes from the source on every run (`Gen.fileDigestHexLen`,
+`Gen.CpioConsts`, `Gen.compressionFromStr`, `Gen.payloadCompressorDefault`, `Gen.decompressIdentity`).
+`Props/C12.lean` states what `extractInput` is in terms of those models (`input_*`) and carries the theorems about
+`Fs.extract` over to packages (`extract_package_*`).
 -/
 namespace RpmVerif.PkgFiles
-open RpmVerif.Hdr RpmVerif.Gen RpmVerif.Gen.IndexTag RpmVerif.Fs
+open RpmVerif.Hdr RpmVerif.Gen RpmVerif.Fs
 
-/-- result of a typed getter: `Error::TagNotFound` is told apart from every other error -/
-inductive Get (α : Type) where
-  | ok (a : α)
-  | notFound
-  | bad
-  deriving Repr
-
-def Get.isNotFound {α} : Get α → Bool | .notFound => true | _ => false
-
-/-- `find_entry_or_err`: first entry with the tag -/
-def findEntry (h : Header) (tag : Nat) : Option Entry := h.entries.find? (fun e => e.tag == tag)
-
-def getWith {α} (h : Header) (tag : Nat) (f : IndexData → Option α) : Get α :=
-  match findEntry h tag with
-  | none => .notFound
-  | some e => match f e.data with | some a => .ok a | none => .bad
-
-def asStrArray : IndexData → Option (List Bytes) | .strArray l => some l | .i18n l => some l | _ => none
-def asU16Array : IndexData → Option (List Nat) | .int16 l => some l | _ => none
-def asU32Array : IndexData → Option (List Nat) | .int32 l => some l | _ => none
-def asU64Array : IndexData → Option (List Nat) | .int64 l => some l | _ => none
-def asStr : IndexData → Option Bytes | .str s => some s | _ => none
-def asU32 : IndexData → Option Nat | .int32 (x :: _) => some x | _ => none
-
-/-- `get_file_paths`: `none` = `Err` -/
-def filePaths (h : Header) : Option (List Bytes) :=
-  match getWith h RPMTAG_BASENAMES asStrArray, getWith h RPMTAG_DIRINDEXES asU32Array, getWith h RPMTAG_DIRNAMES asStrArray with
-  | .notFound, .notFound, .notFound => some []
-  | .ok bases, .ok idx, .ok dirs =>
-    (bases.zip idx).foldl (fun acc (b, i) =>
-      match acc, dirs[i]? with
-      | some l, some d => some (l ++ [pathJoin d b])
-      | _, _ => none) (some [])
-  | _, _, _ => none
-
-/-- `DigestAlgorithm::from_u32` then the length table of `FileDigest::new`; `0` = no such algorithm / unsupported -/
-def digestLen (algo : Nat) : Nat :=
-  if algo = 1 then 32 else if algo = 8 then 64 else if algo = 11 then 60 else if algo = 9 then 96
-  else if algo = 10 then 128 else 0
-
-def knownDigestAlgo (a : Nat) : Bool := [1, 8, 9, 10, 11, 12, 14].contains a
-
-/-- one `FileEntry`, as far as `extract` and the cpio reader look at it -/
-structure FileEntry where
-  path : Bytes
-  mode : Nat
-  size : Nat
-  linkto : Bytes
-  deriving Repr
-
-def zip9 : List Bytes → List Bytes → List Bytes → List Nat → List Bytes → List Nat → List Nat → List Nat → List Bytes →
-    List (Bytes × Nat × Bytes × Nat × Bytes)
-  | p :: ps, _ :: us, _ :: gs, m :: ms, d :: ds, _ :: ts, s :: ss, _ :: fs, l :: ls =>
-    (p, m, d, s, l) :: zip9 ps us gs ms ds ts ss fs ls
-  | _, _, _, _, _, _, _, _, _ => []
-
-/-- `get_file_entries`: `none` = `Err` -/
-def fileEntries (sig h : Header) : Option (List FileEntry) :=
-  let algo := match getWith h RPMTAG_FILEDIGESTALGO asU32 with
-    | .ok a => if knownDigestAlgo a then a else 1
-    | _ => 1
-  match getWith h RPMTAG_FILEMODES asU16Array with
-  | .notFound => some []
-  | modes =>
-    let users := getWith h RPMTAG_FILEUSERNAME asStrArray
-    let groups := getWith h RPMTAG_FILEGROUPNAME asStrArray
-    let digests := getWith h RPMTAG_FILEDIGESTS asStrArray
-    let mtimes := getWith h RPMTAG_FILEMTIMES asU32Array
-    let sizes := match getWith h RPMTAG_LONGFILESIZES asU64Array with
-      | .ok l => Get.ok l
-      | _ => getWith h RPMTAG_FILESIZES asU32Array
-    let flags := getWith h RPMTAG_FILEFLAGS asU32Array
-    match getWith h RPMTAG_FILECAPS asStrArray with
-    | .bad => none
-    | _ =>
-      let links := getWith h RPMTAG_FILELINKTOS asStrArray
-      match getWith sig SigTag.RPMSIGTAG_FILESIGNATURES asStrArray with
-      | .bad => none
-      | _ =>
-        match modes, users, groups, digests, mtimes, sizes, flags, links with
-        | .ok modes, .ok users, .ok groups, .ok digests, .ok mtimes, .ok sizes, .ok flags, .ok links =>
-          match filePaths h with
-          | none => none
-          | some paths =>
-            (zip9 paths users groups modes digests mtimes sizes flags links).foldl (fun acc (x : Bytes × Nat × Bytes × Nat × Bytes) => let (p, m, d, s, l) := x;
-              match acc with
-              | none => none
-              | some es =>
-                if d.isEmpty || d.length == digestLen algo then some (es ++ [⟨p, m, s, l⟩]) else none) (some [])
-        | _, _, _, _, _, _, _, _ => none
-
-/-- `get_payload_compressor`: `some none` = no compression, `some (some k)` = variant k, `none` = `Err` -/
-def payloadCompressor (h : Header) : Option (Option Nat) :=
-  match getWith h RPMTAG_PAYLOADCOMPRESSOR asStr with
-  | .notFound => some none
-  | .bad => none
-  | .ok s =>
-    if s = [110, 111, 110, 101] then some none           -- "none"
-    else if s = [103, 122, 105, 112] then some (some 1)   -- "gzip"
-    else if s = [122, 115, 116, 100] then some (some 2)   -- "zstd"
-    else if s = [120, 122] then some (some 3)             -- "xz"
-    else if s = [98, 122, 105, 112, 50] then some (some 4) -- "bzip2"
-    else none
-
-/-! ## cpio -/
-
-def hexDigitVal (b : UInt8) : Option Nat :=
-  if 48 ≤ b ∧ b ≤ 57 then some (b.toNat - 48)
-  else if 97 ≤ b ∧ b ≤ 102 then some (b.toNat - 87)
-  else if 65 ≤ b ∧ b ≤ 70 then some (b.toNat - 55) else none
-
-/-- `u32::from_str_radix(s, 16)` on 8 bytes: an optional `+`, then at least one hex digit -/
-def parseHexU32 (bs : Bytes) : Option Nat :=
-  let ds := match bs with | 43 :: r => r | _ => bs
-  if ds.isEmpty then none else
-  ds.foldl (fun acc b => match acc, hexDigitVal b with | some a, some d => some (a * 16 + d) | _, _ => none) (some 0)
-
-/-- `read_hex_u32` -/
-def readHexU32 (a : Bytes) : Option (Nat × Bytes) :=
-  if a.length < 8 then none else
-  match parseHexU32 (a.take 8) with
-  | some n => some (n, a.drop 8)
-  | none => none
-
-def readHexFields : Nat → Bytes → Option (List Nat × Bytes)
-  | 0, a => some ([], a)
-  | k + 1, a => match readHexU32 a with
-    | none => none
-    | some (n, a) => match readHexFields k a with
-      | none => none
-      | some (ns, a) => some (n :: ns, a)
-
-def padLen (n : Nat) : Nat := (4 - n % 4) % 4
-
-def dropTrailingZeros (bs : Bytes) : Bytes := (bs.reverse.dropWhile (· == 0)).reverse
-
-def trailerName : Bytes := [84, 82, 65, 73, 76, 69, 82, 33, 33, 33]
-
-/-- the header path a cpio entry name stands for (`Reader::file_index`): `"." + path`, or the plain path -/
-def namePath : Bytes → Bytes
-  | 46 :: 47 :: r => 47 :: r
-  | n => n
-
-/-- `Reader::new`: `none` = `Err`; otherwise (is trailer, `Reader::file_index` — the header file the
-entry designates: by name, or the index a stripped entry carries —, file size, rest of the archive) -/
-def readerNew (entries : List FileEntry) (a : Bytes) : Option (Bool × Option Nat × Nat × Bytes) :=
-  if a.length < 6 then none else
-  let magic := a.take 6
-  let a := a.drop 6
-  if magic = [48, 55, 48, 55, 48, 49] ∨ magic = [48, 55, 48, 55, 48, 50] then
-    match readHexFields 13 a with
-    | some ([_, _, _, _, _, _, fileSize, _, _, _, _, nameLen, _], a) =>
-      if nameLen > 4096 then none
-      else if a.length < nameLen then none
-      else
-        let name := a.take nameLen
-        let a := a.drop nameLen
-        if name.getLast? ≠ some 0 then none else
-        let name := dropTrailingZeros name.dropLast
-        if !Utf8.isValid name then none else
-        let p := padLen (110 + nameLen)
-        if a.length < p then none else
-        let i := (entries.map (·.path)).idxOf (namePath name)
-        some (name == trailerName, if i < entries.length then some i else none, fileSize, a.drop p)
-    | _ => none
-  else if magic = [48, 55, 48, 55, 48, 88] then
-    match readHexU32 a with
-    | none => none
-    | some (idx, a) =>
-      if a.length < 2 then none else
-      let a := a.drop 2
-      if idx = 4294967295 then some (true, none, 0, a)
-      else match entries[idx]? with
-        | some e => some (false, some idx, e.size, a)
-        | none => none
-  else none
-
+/-- `match file.metadata.mode { FileMode::Dir{..} | Regular{..} | SymbolicLink{..} | mode => … }` -/
 def kindOf (mode : Nat) : Kind :=
   match FileMode.fromU16 mode with
   | .dir _ => .dir | .regular _ => .regular | .symlink _ => .symlink | .invalid _ => .other
 
-/-- `FileIterator` (`count = all.length - fuel`): the `Ok` items in order, and whether the iteration then
-ends (`true`) or yields an `Err`.  Each item carries the metadata of the header file its archive entry
-designates (since `fix: 3cfa908`; by position before); an entry that designates none is an `Err`. -/
-def iterate (all : List FileEntry) : Nat → Bytes → List Item × Bool
-  | 0, _ => ([], true)
-  | fuel + 1, a =>
-    match readerNew all a with
+/-- the part of an `RpmFile` that `extract` looks at: metadata of header file `e`, content `c` -/
+def itemOfEntry (e : Acc.FileEntry) (c : Bytes) : Item :=
+  ⟨e.path, kindOf e.mode, FileMode.permissions (FileMode.fromU16 e.mode), c, e.linkto⟩
+
+/-- `RpmFile { metadata: self.file_entries[index].clone(), content }`; `none` = the index is out of range (the code
+would panic there — it cannot happen: `C12.input_index_in_range`) -/
+def itemOf (es : List Acc.FileEntry) (i : Nat) (c : Bytes) : Option Item := (es[i]?).map (itemOfEntry · c)
+
+/-- `for file in self.files()? { let file = file?; … }` over what the successive `next()` calls return: the `Ok`
+items before the first `Err`, and whether the iteration ends without one -/
+def collect (es : List Acc.FileEntry) : List (Out (Nat × Bytes)) → List Item × Bool
+  | [] => ([], true)
+  | .ok (i, c) :: r =>
+    match itemOf es i c with
+    | some it => let rest := collect es r; (it :: rest.1, rest.2)
     | none => ([], false)
-    | some (true, _, _, _) => ([], true)
-    | some (false, none, _, _) => ([], false)
-    | some (false, some i, size, a) =>
-      match all[i]? with
-      | none => ([], false)
-      | some e =>
-      -- `read_to_end` stops early at the end of the archive; `finish` then fails (data or padding missing)
-      if a.length < size then ([], false) else
-      let content := a.take size
-      let a := a.drop size
-      if a.length < padLen size then ([], false) else
-      let (items, ok) := iterate all fuel (a.drop (padLen size))
-      (⟨e.path, kindOf e.mode, FileMode.permissions (FileMode.fromU16 e.mode), content, e.linkto⟩ :: items, ok)
+  | _ :: _ => ([], false)
+
+/-- `decompress_stream` hands the payload back unchanged (`CompressionType::None`) -/
+def payloadIsArchive (variant : Nat) : Bool := decompressIdentity.contains variant
+
+/-- `Package::files()` followed by the iteration, on the decompressed archive `a` -/
+def itemsOf (es : List Acc.FileEntry) (a : Bytes) : List Item × Bool :=
+  collect es (Cpio.iterate a (es.map (·.path)) (es.map (·.size)))
 
 /-- everything `extract` reads. `archive?` replaces the payload when it is compressed (the driver has
 no decompressors); `none` as result = the model cannot predict (compressed payload without archive). -/
 def extractInput (p : Package) (archive? : Option Bytes) : Option Input :=
-  let dirnames := match getWith p.md.header RPMTAG_DIRNAMES asStrArray with | .ok l => some l | _ => none
-  match fileEntries p.md.signature p.md.header with
-  | none => some ⟨dirnames, [], false⟩
-  | some es =>
-    match payloadCompressor p.md.header with
-    | none => some ⟨dirnames, [], false⟩
-    | some comp =>
-      let archive := match comp, archive? with
-        | none, _ => some p.content
-        | some _, some a => some a
-        | some _, none => none
-      match archive with
+  let dirnames := (getStringArray p.md.header IndexTag.RPMTAG_DIRNAMES).toOption
+  match Acc.getFileEntries p.md.signature p.md.header with
+  | .ok es =>
+    match Acc.getPayloadCompressorVariant p.md.header with
+    | .ok comp =>
+      match (if payloadIsArchive comp then some p.content else archive?) with
       | none => none
-      | some a =>
-        let (items, ok) := iterate es es.length a
-        some ⟨dirnames, items, ok⟩
+      | some a => let r := itemsOf es a; some ⟨dirnames, r.1, r.2⟩
+    | _ => some ⟨dirnames, [], false⟩
+  | _ => some ⟨dirnames, [], false⟩
 
 end RpmVerif.PkgFiles
